@@ -271,7 +271,10 @@ impl Protocol for Driver {
         if self.idx == 0 {
             let tcp = machine.protocol::<Tcp>().expect("tcp");
             for k in 0..cfg.conns {
-                let _ = tcp.listen(self.id(), endpoint((addr(0), cfg.conn(k).sport)), machine.clone());
+                // `c14-path`: the second listener is a wildcard one, so that the `(0.0.0.0, port)` lookup of
+                // `Tcp::demux` carries legitimate traffic as well
+                let a = if cfg.mix == "c14p" && k == 1 { 0 } else { addr(0) };
+                let _ = tcp.listen(self.id(), endpoint((a, cfg.conn(k).sport)), machine.clone());
             }
         }
         initialized.wait().await;
